@@ -881,7 +881,6 @@ func dominatedByCancelledEdge(b *ssa.BasicBlock, ctx ssa.Value) bool {
 	return false
 }
 
-
 // eng1NoRefusalByState: a fresh instance is never refused, so a reused one must not be either. Before the first
 // evaluation an entry point may turn a call down only for its arguments (nil knowledge base or data context, a context
 // that is over) or for a failure of the data context; a refusal whose condition reads the knowledge base (a claim flag
